@@ -70,4 +70,41 @@ theorem isOrthonormal_relabel (lm : Fin N → Fin N) (hbij : Function.Bijective 
   simp only [hV]
   exact this
 
+/-! ### Landmark Isomap with every sample a landmark -/
+
+theorem rowMeans_apply {n k : Nat} (A : Mat n k K) (i : Fin n) : rowMeans A i = (∑ j, A i j) / (k : K) := by
+  simp [rowMeans, sumFin_eq_sum]
+
+/-- the `N × N` matrix Landmark Isomap builds from the relabelled rows of a symmetric geodesic matrix is the Isomap
+    matrix with its rows relabelled -/
+theorem lisomapPre_relabel (G : Mat N N K) (hsym : ∀ x y, G x y = G y x) (lm : Fin N → Fin N)
+    (hbij : Function.Bijective lm) (k j : Fin N) :
+    lisomapPre (fun k j => G (lm k) j) k j = isomapPreOfGeodesics G (lm k) j := by
+  unfold lisomapPre isomapPreOfGeodesics lisomapWith scale
+  rw [centerMatrix_apply]
+  have hc : colMeans (sqMat fun k j => G (lm k) j) j = colMeans (fun i j => G i j * G i j) j := by
+    rw [colMeans_apply, colMeans_apply]
+    simp only [sqMat]
+    rw [sum_comp_bij lm hbij (fun x => G x j * G x j)]
+  have hr : rowMeans (sqMat fun k j => G (lm k) j) k = colMeans (fun i j => G i j * G i j) (lm k) := by
+    rw [rowMeans_apply, colMeans_apply]
+    simp only [sqMat]
+    congr 1
+    apply Finset.sum_congr rfl; intro y _
+    rw [hsym (lm k) y]
+  have hg : grandMean (sqMat fun k j => G (lm k) j) = grandMean (fun i j => G i j * G i j) := by
+    rw [grandMean_eq, grandMean_eq]
+    congr 1
+    simp only [sqMat]
+    exact sum_comp_bij lm hbij (fun x => ∑ y, G x y * G x y)
+  rw [hc, hr, hg]
+  simp only [sqMat]
+  ring
+
+theorem isomapPre_symm (G : Mat N N K) (hsym : ∀ x y, G x y = G y x) (x y : Fin N) :
+    isomapPreOfGeodesics G x y = isomapPreOfGeodesics G y x := by
+  unfold isomapPreOfGeodesics scale
+  rw [centerMatrix_apply, centerMatrix_apply, hsym x y]
+  ring
+
 end TapkeeVerif.Landmarks
